@@ -1,12 +1,965 @@
 package main
 
-// Mode `runner` (C03) - filled in below.
+// Mode `runner` (C03): one real validator.Validator (operator 1, all seven duty runners, QBFT
+// controllers built as the operator builds them) receives histories derived from honest 4-node runs
+// of the real code: start-duty events, pre-consensus, consensus and post-consensus messages - valid,
+// stale, future, replayed, re-labelled to another role or another validator - plus crafted decided
+// messages (valid quorum signatures over a chosen value).  Observed: every SignBeaconObject call of
+// the node's key manager, every broadcast of a partial-signature message, the runner's state.
 
-import "verifharness/hx"
+import (
+	"context"
+	"crypto/sha256"
+	"fmt"
+	"sort"
+	"strings"
 
-type runnerSut struct{}
+	"github.com/attestantio/go-eth2-client/spec"
+	"github.com/attestantio/go-eth2-client/spec/altair"
+	"github.com/attestantio/go-eth2-client/spec/phase0"
+	specqbft "github.com/bloxapp/ssv-spec/qbft"
+	spectypes "github.com/bloxapp/ssv-spec/types"
+	"github.com/bloxapp/ssv-spec/types/testingutils"
+	ssz "github.com/ferranbt/fastssz"
+	"github.com/herumi/bls-eth-go-binary/bls"
+	"go.uber.org/zap"
 
-func (r *runnerSut) finish()              {}
-func (r *runnerSut) replayOp(w []string)  {}
-func newRunnerSutFromLine(out *hx.Out, w []string) *runnerSut { return &runnerSut{} }
-func runnerGen(out *hx.Out, seed uint64, n int, roles []string) {}
+	"github.com/bloxapp/ssv/networkconfig"
+	qbfttesting "github.com/bloxapp/ssv/protocol/v2/qbft/testing"
+	"github.com/bloxapp/ssv/protocol/v2/ssv/queue"
+	"github.com/bloxapp/ssv/protocol/v2/ssv/runner"
+	"github.com/bloxapp/ssv/protocol/v2/ssv/validator"
+	ssvtypes "github.com/bloxapp/ssv/protocol/v2/types"
+
+	"verifharness/hx"
+)
+
+// ---- roles of the validator ----------------------------------------------------------------------------
+
+var nodeRoles = []string{"att", "propc", "agg", "sc", "scc", "vreg", "vexit"}
+
+// model-side role names
+var roleName = map[spectypes.BeaconRole]string{
+	spectypes.BNRoleAttester: "att", spectypes.BNRoleProposer: "prop", spectypes.BNRoleAggregator: "agg",
+	spectypes.BNRoleSyncCommittee: "sc", spectypes.BNRoleSyncCommitteeContribution: "scc",
+	spectypes.BNRoleValidatorRegistration: "vreg", spectypes.BNRoleVoluntaryExit: "vexit",
+}
+
+func roleOf(name string) spectypes.BeaconRole {
+	for r, n := range roleName {
+		if n == name {
+			return r
+		}
+	}
+	panic("role " + name)
+}
+
+var domainName = map[phase0.DomainType]string{
+	spectypes.DomainRandao: "randao", spectypes.DomainSelectionProof: "selproof",
+	spectypes.DomainSyncCommitteeSelectionProof: "scselproof", spectypes.DomainAttester: "attester",
+	spectypes.DomainProposer: "proposer", spectypes.DomainAggregateAndProof: "aggproof",
+	spectypes.DomainSyncCommittee: "synccom", spectypes.DomainContributionAndProof: "contrib",
+	spectypes.DomainApplicationBuilder: "appbuilder", spectypes.DomainVoluntaryExit: "volexit",
+}
+
+func baseSlot(role spectypes.BeaconRole) uint64 {
+	if role == spectypes.BNRoleProposer {
+		return uint64(testingutils.TestingDutySlotCapella)
+	}
+	return uint64(testingutils.TestingDutySlot)
+}
+
+func dutyFor(role spectypes.BeaconRole, slot uint64) *spectypes.Duty {
+	var d spectypes.Duty
+	switch role {
+	case spectypes.BNRoleAttester:
+		d = testingutils.TestingAttesterDuty
+	case spectypes.BNRoleProposer:
+		d = *testingutils.TestingProposerDutyV(spec.DataVersionCapella)
+	case spectypes.BNRoleAggregator:
+		d = testingutils.TestingAggregatorDuty
+	case spectypes.BNRoleSyncCommittee:
+		d = testingutils.TestingSyncCommitteeDuty
+	case spectypes.BNRoleSyncCommitteeContribution:
+		d = testingutils.TestingSyncCommitteeContributionDuty
+	case spectypes.BNRoleValidatorRegistration:
+		d = testingutils.TestingValidatorRegistrationDuty
+	case spectypes.BNRoleVoluntaryExit:
+		d = testingutils.TestingVoluntaryExitDuty
+	}
+	d.Slot = phase0.Slot(slot)
+	return &d
+}
+
+func signingRoot(obj ssz.HashRoot, dom phase0.DomainType) [32]byte {
+	d, _ := testingutils.NewTestingBeaconNode().DomainData(0, dom)
+	r, err := spectypes.ComputeETHSigningRoot(obj, d)
+	if err != nil {
+		panic(err)
+	}
+	return r
+}
+
+// preObjects: the slot-bound pre-consensus objects a duty has to sign when it starts, computed here
+// from the duty alone (independent of the runner).
+func preObjects(d *spectypes.Duty) (phase0.DomainType, [][32]byte) {
+	epoch := spectypes.BeaconTestNetwork.EstimatedEpochAtSlot(d.Slot)
+	switch d.Type {
+	case spectypes.BNRoleProposer:
+		return spectypes.DomainRandao, [][32]byte{signingRoot(spectypes.SSZUint64(epoch), spectypes.DomainRandao)}
+	case spectypes.BNRoleAggregator:
+		return spectypes.DomainSelectionProof, [][32]byte{signingRoot(spectypes.SSZUint64(d.Slot), spectypes.DomainSelectionProof)}
+	case spectypes.BNRoleSyncCommitteeContribution:
+		var rs [][32]byte
+		for _, idx := range d.ValidatorSyncCommitteeIndices {
+			data := &altair.SyncAggregatorSelectionData{Slot: d.Slot, SubcommitteeIndex: idx}
+			rs = append(rs, signingRoot(data, spectypes.DomainSyncCommitteeSelectionProof))
+		}
+		return spectypes.DomainSyncCommitteeSelectionProof, rs
+	case spectypes.BNRoleValidatorRegistration:
+		return spectypes.DomainApplicationBuilder, [][32]byte{signingRoot(testingutils.TestingValidatorRegistration, spectypes.DomainApplicationBuilder)}
+	case spectypes.BNRoleVoluntaryExit:
+		ve := &phase0.VoluntaryExit{Epoch: epoch, ValidatorIndex: d.ValidatorIndex}
+		return spectypes.DomainVoluntaryExit, [][32]byte{signingRoot(ve, spectypes.DomainVoluntaryExit)}
+	}
+	return phase0.DomainType{}, nil
+}
+
+// valueObjects: the duty objects contained in a decided value, extracted with the spec's getters.
+func valueObjects(role spectypes.BeaconRole, cd *spectypes.ConsensusData) ([][32]byte, error) {
+	switch role {
+	case spectypes.BNRoleAttester:
+		a, err := cd.GetAttestationData()
+		if err != nil {
+			return nil, err
+		}
+		return [][32]byte{signingRoot(a, spectypes.DomainAttester)}, nil
+	case spectypes.BNRoleProposer:
+		if _, b, err := cd.GetBlindedBlockData(); err == nil {
+			return [][32]byte{signingRoot(b, spectypes.DomainProposer)}, nil
+		}
+		_, b, err := cd.GetBlockData()
+		if err != nil {
+			return nil, err
+		}
+		return [][32]byte{signingRoot(b, spectypes.DomainProposer)}, nil
+	case spectypes.BNRoleAggregator:
+		a, err := cd.GetAggregateAndProof()
+		if err != nil {
+			return nil, err
+		}
+		return [][32]byte{signingRoot(a, spectypes.DomainAggregateAndProof)}, nil
+	case spectypes.BNRoleSyncCommittee:
+		r, err := cd.GetSyncCommitteeBlockRoot()
+		if err != nil {
+			return nil, err
+		}
+		return [][32]byte{signingRoot(spectypes.SSZBytes(r[:]), spectypes.DomainSyncCommittee)}, nil
+	case spectypes.BNRoleSyncCommitteeContribution:
+		cs, err := cd.GetSyncCommitteeContributions()
+		if err != nil {
+			return nil, err
+		}
+		var rs [][32]byte
+		for _, c := range cs {
+			contrib := c.Contribution
+			cp := &altair.ContributionAndProof{AggregatorIndex: cd.Duty.ValidatorIndex, Contribution: &contrib, SelectionProof: c.SelectionProofSig}
+			rs = append(rs, signingRoot(cp, spectypes.DomainContributionAndProof))
+		}
+		return rs, nil
+	}
+	return nil, fmt.Errorf("no consensus for role")
+}
+
+// ---- a node -----------------------------------------------------------------------------------------------
+
+type node struct {
+	id   spectypes.OperatorID
+	v    *validator.Validator
+	envs map[spectypes.BeaconRole]*env
+	km   *recKM
+	bn   *recBN
+	net  *recNet
+	// what the controllers reported through NewDecidedHandler during the current call
+	handled []*specqbft.SignedMessage
+}
+
+func newNode(id spectypes.OperatorID) *node {
+	nd := &node{id: id, envs: map[spectypes.BeaconRole]*env{}, km: newRecKM(), bn: newRecBN(), net: newRecNet()}
+	runners := runner.DutyRunners{}
+	for _, name := range nodeRoles {
+		rs := roleByName(name)
+		e := newEnvWith(rs, 4, id, nd.km, nd.bn, nd.net, true)
+		nd.envs[rs.role] = e
+		runners[rs.role] = e.r
+		if c := e.r.GetBaseRunner().QBFTController; c != nil {
+			c.NewDecidedHandler = func(m *specqbft.SignedMessage) { nd.handled = append(nd.handled, m) }
+		}
+	}
+	ctx, cancel := context.WithCancel(context.Background())
+	share := *testingutils.TestingShare(keySet(4))
+	share.OperatorID = id
+	share.SharePubKey = keySet(4).Shares[id].GetPublicKey().Serialize()
+	nd.v = validator.NewValidator(ctx, cancel, validator.Options{
+		Network:       nd.net,
+		Beacon:        nd.bn,
+		BeaconNetwork: networkconfig.TestNetwork.Beacon,
+		Storage:       qbfttesting.TestingStores(zap.NewNop()),
+		SSVShare:      &ssvtypes.SSVShare{Share: share},
+		Signer:        nd.km,
+		DutyRunners:   runners,
+	})
+	return nd
+}
+
+func (nd *node) process(m *spectypes.SSVMessage) error {
+	dm, err := queue.DecodeSSVMessage(m)
+	if err != nil {
+		return err
+	}
+	return nd.v.ProcessMessage(zap.NewNop(), dm)
+}
+
+// ---- honest transcripts ---------------------------------------------------------------------------------
+
+type trKey struct {
+	role spectypes.BeaconRole
+	slot uint64
+}
+
+var transcripts = map[trKey][]*spectypes.SSVMessage{}
+
+// transcript: 4 real nodes execute the duty; every broadcast message is delivered to every node
+// (sender included) in broadcast order.  Returns the messages in that order.
+func transcript(role spectypes.BeaconRole, slot uint64) []*spectypes.SSVMessage {
+	k := trKey{role, slot}
+	if t, ok := transcripts[k]; ok {
+		return t
+	}
+	nodes := []*node{newNode(1), newNode(2), newNode(3), newNode(4)}
+	for _, nd := range nodes {
+		if err := nd.v.StartDuty(zap.NewNop(), dutyFor(role, slot)); err != nil {
+			panic(fmt.Sprintf("honest StartDuty %s %d: %v", roleName[role], slot, err))
+		}
+	}
+	var tr []*spectypes.SSVMessage
+	seen := make([]int, len(nodes))
+	for progress := true; progress; {
+		progress = false
+		var batch []*spectypes.SSVMessage
+		for i, nd := range nodes {
+			batch = append(batch, nd.net.msgs[seen[i]:]...)
+			seen[i] = len(nd.net.msgs)
+		}
+		for _, m := range batch {
+			progress = true
+			tr = append(tr, m)
+			for _, nd := range nodes {
+				_ = nd.process(m)
+			}
+		}
+	}
+	transcripts[k] = tr
+	return tr
+}
+
+// ---- crafted decided messages -----------------------------------------------------------------------------
+
+// craftedValue returns the bytes a crafted decided message carries.
+//
+//	good:S    the value the honest run for slot S decided
+//	bad:S     that value with a duty of another validator index (fails every role's value check)
+//	junk      bytes that are not a ConsensusData
+func craftedValue(role spectypes.BeaconRole, kind string) []byte {
+	if kind == "junk" {
+		return []byte{1, 2, 3, 4, 5, 6, 7, 8}
+	}
+	parts := strings.SplitN(kind, ":", 2)
+	slot := u(parts[1])
+	var val []byte
+	for _, m := range transcript(role, slot) {
+		if m.MsgType != spectypes.SSVConsensusMsgType {
+			continue
+		}
+		sm := &specqbft.SignedMessage{}
+		if sm.Decode(m.Data) == nil && sm.Message.MsgType == specqbft.ProposalMsgType {
+			val = sm.FullData
+			break
+		}
+	}
+	if val == nil {
+		panic("no proposal in transcript")
+	}
+	if parts[0] == "good" {
+		return val
+	}
+	cd := &spectypes.ConsensusData{}
+	if err := cd.Decode(val); err != nil {
+		panic(err)
+	}
+	cd.Duty.ValidatorIndex += 7
+	b, _ := cd.Encode()
+	return b
+}
+
+func craftedDecided(role spectypes.BeaconRole, height uint64, kind string, nsigners int) *spectypes.SSVMessage {
+	ks := keySet(4)
+	full := craftedValue(role, kind)
+	id := spectypes.NewMsgID(testingutils.TestingSSVDomainType, testingutils.TestingValidatorPubKey[:], role)
+	root := sha256.Sum256(full)
+	msg := &specqbft.Message{MsgType: specqbft.CommitMsgType, Height: specqbft.Height(height), Round: specqbft.FirstRound, Identifier: id[:], Root: root}
+	var sks []*bls.SecretKey
+	var ids []spectypes.OperatorID
+	for i := 1; i <= nsigners; i++ {
+		sks = append(sks, ks.Shares[spectypes.OperatorID(i)])
+		ids = append(ids, spectypes.OperatorID(i))
+	}
+	sm := testingutils.MultiSignQBFTMsg(sks, ids, msg)
+	sm.FullData = full
+	data, _ := sm.Encode()
+	return &spectypes.SSVMessage{MsgType: spectypes.SSVConsensusMsgType, MsgID: id, Data: data}
+}
+
+// ---- system under test ------------------------------------------------------------------------------------
+
+type runnerSut struct {
+	out     *hx.Out
+	nd      *node
+	rootIDs map[[32]byte]int
+	valIDs  map[string]int
+	nsign   int
+	nbcast  int
+	// monitor
+	duties   map[spectypes.BeaconRole]*dutyMon
+	lastSubs int
+}
+
+// dutyMon: what the monitor knows about the duty currently running on one runner.
+type dutyMon struct {
+	slot     uint64
+	pre      map[[32]byte]bool // slot-bound pre-consensus objects of this duty
+	startOp  int               // op number of the StartDuty step
+	decided  map[[32]byte]bool // objects of the value the running instance decided first (validated)
+	decideOp int
+	signed   map[[32]byte]int
+}
+
+func newRunnerSut(out *hx.Out) *runnerSut {
+	out.Op("RNEW", "4")
+	return &runnerSut{out: out, nd: newNode(1), rootIDs: map[[32]byte]int{}, valIDs: map[string]int{}, duties: map[spectypes.BeaconRole]*dutyMon{}}
+}
+
+func newRunnerSutFromLine(out *hx.Out, w []string) *runnerSut { return newRunnerSut(out) }
+
+func (s *runnerSut) rid(r [32]byte) int {
+	if id, ok := s.rootIDs[r]; ok {
+		return id
+	}
+	id := len(s.rootIDs)
+	s.rootIDs[r] = id
+	return id
+}
+
+func (s *runnerSut) vid(v []byte) int {
+	if id, ok := s.valIDs[string(v)]; ok {
+		return id
+	}
+	id := len(s.valIDs)
+	s.valIDs[string(v)] = id
+	return id
+}
+
+func (s *runnerSut) ridList(rs [][32]byte) string {
+	if len(rs) == 0 {
+		return "0"
+	}
+	p := []string{fmt.Sprint(len(rs))}
+	for _, r := range rs {
+		p = append(p, fmt.Sprint(s.rid(r)))
+	}
+	return strings.Join(p, " ")
+}
+
+// observe prints what the node did during the last call: signing calls, partial-signature
+// broadcasts, and the state of the runner the call was routed to.
+func (s *runnerSut) observe(role spectypes.BeaconRole, cls string) (signs []signCall) {
+	signs = append(signs, s.nd.km.calls[s.nsign:]...)
+	s.nsign = len(s.nd.km.calls)
+	var sl []string
+	for _, c := range signs {
+		sl = append(sl, fmt.Sprintf("%s:%d", domainName[c.domain], s.rid(c.root)))
+	}
+	var bl []string
+	for _, m := range s.nd.net.msgs[s.nbcast:] {
+		if m.MsgType != spectypes.SSVPartialSignatureMsgType {
+			continue
+		}
+		pm := &spectypes.SignedPartialSignatureMessage{}
+		if pm.Decode(m.Data) != nil {
+			continue
+		}
+		kind := "pre"
+		if pm.Message.Type == spectypes.PostConsensusPartialSig {
+			kind = "post"
+		}
+		var ids []string
+		for _, im := range pm.Message.Messages {
+			ids = append(ids, fmt.Sprint(s.rid(im.SigningRoot)))
+		}
+		bl = append(bl, fmt.Sprintf("%s/%s/%d/%s", roleName[m.MsgID.GetRoleType()], kind, uint64(pm.Message.Slot), strings.Join(ids, ".")))
+	}
+	s.nbcast = len(s.nd.net.msgs)
+	join := func(l []string) string {
+		if len(l) == 0 {
+			return "-"
+		}
+		return strings.Join(l, ",")
+	}
+	s.out.Obs("r %s sign=%s bcast=%s state=%s", cls, join(sl), join(bl), s.state(role))
+	return signs
+}
+
+func (s *runnerSut) state(role spectypes.BeaconRole) string {
+	e := s.nd.envs[role]
+	if e == nil {
+		return "none"
+	}
+	st := e.r.GetBaseRunner().State
+	if st == nil {
+		return "idle"
+	}
+	run, dec, fin := "-", "-", 0
+	if st.RunningInstance != nil {
+		run = fmt.Sprint(uint64(st.RunningInstance.GetHeight()))
+	}
+	if st.DecidedValue != nil {
+		b, _ := st.DecidedValue.Encode()
+		dec = fmt.Sprint(s.vid(b))
+	}
+	if st.Finished {
+		fin = 1
+	}
+	return fmt.Sprintf("%d/%s/%s/%d", uint64(st.StartingDuty.Slot), run, dec, fin)
+}
+
+func b01(b bool) int {
+	if b {
+		return 1
+	}
+	return 0
+}
+
+// ---- StartDuty ---------------------------------------------------------------------------------------------
+
+func (s *runnerSut) start(role spectypes.BeaconRole, slot uint64) {
+	d := dutyFor(role, slot)
+	e := s.nd.envs[role]
+	br := e.r.GetBaseRunner()
+	ctrlH := uint64(0)
+	if br.QBFTController != nil {
+		ctrlH = uint64(br.QBFTController.Height)
+	}
+	dom, pre := preObjects(d)
+	err := s.nd.v.StartDuty(zap.NewNop(), d)
+	instOK := br.State != nil && br.State.RunningInstance != nil && uint64(br.State.StartingDuty.Slot) == slot
+	cls := "ok"
+	if err != nil {
+		switch {
+		case strings.Contains(err.Error(), "already passed"):
+			cls = "passed"
+		case strings.Contains(err.Error(), "can't start new duty runner instance"):
+			cls = "nostart"
+		default:
+			cls = "other:" + strings.ReplaceAll(err.Error(), " ", "_")
+		}
+	}
+	s.out.Op("RSTART", "%s %d %s ; %d %d", roleName[role], slot, s.ridList(pre), ctrlH, b01(instOK))
+	signs := s.observe(role, cls)
+	// ---- monitor
+	if cls == "ok" || cls == "nostart" {
+		dm := &dutyMon{slot: slot, pre: map[[32]byte]bool{}, startOp: s.out.Ops, signed: map[[32]byte]int{}}
+		for _, r := range pre {
+			dm.pre[r] = true
+		}
+		s.duties[role] = dm
+	}
+	for _, c := range signs {
+		dm := s.duties[role]
+		if cls == "passed" || dm == nil || !dm.pre[c.root] || c.domain != dom {
+			s.out.ViolF("signature at StartDuty(%s, %d) that is not a pre-consensus proof of that duty (domain %s)", roleName[role], slot, domainName[c.domain])
+			continue
+		}
+		dm.signed[c.root]++
+		if dm.signed[c.root] > 1 {
+			s.out.ViolF("pre-consensus object of duty (%s, %d) signed twice", roleName[role], slot)
+		}
+	}
+}
+
+// ---- messages ----------------------------------------------------------------------------------------------
+
+type msgRef struct {
+	kind    string // "T" transcript message, "D" crafted decided
+	trRole  spectypes.BeaconRole
+	trSlot  uint64
+	k       int
+	height  uint64
+	valKind string
+	signers int
+	asRole  spectypes.BeaconRole // MsgID role the message is delivered under
+	ownPK   bool                 // MsgID carries this validator's public key
+}
+
+func (r msgRef) String() string {
+	if r.kind == "T" {
+		return fmt.Sprintf("T %s %d %d %s %d", roleName[r.trRole], r.trSlot, r.k, roleName[r.asRole], b01(r.ownPK))
+	}
+	return fmt.Sprintf("D %s %d %s %d %s %d", roleName[r.trRole], r.height, r.valKind, r.signers, roleName[r.asRole], b01(r.ownPK))
+}
+
+func (s *runnerSut) resolve(r msgRef) *spectypes.SSVMessage {
+	var m *spectypes.SSVMessage
+	if r.kind == "T" {
+		t := transcript(r.trRole, r.trSlot)
+		if r.k >= len(t) {
+			return nil
+		}
+		m = t[r.k]
+	} else {
+		m = craftedDecided(r.trRole, r.height, r.valKind, r.signers)
+	}
+	pk := testingutils.TestingValidatorPubKey[:]
+	if !r.ownPK {
+		pk = testingutils.TestingWrongValidatorPubKey[:]
+	}
+	return &spectypes.SSVMessage{MsgType: m.MsgType, MsgID: spectypes.NewMsgID(testingutils.TestingSSVDomainType, pk, r.asRole), Data: m.Data}
+}
+
+func consClass(err error) string {
+	if err == nil {
+		return "ok"
+	}
+	t := err.Error()
+	switch {
+	case strings.Contains(t, "msg ID doesn't match validator ID"):
+		return "foreign"
+	case strings.Contains(t, "could not get duty runner"):
+		return "norunner"
+	case strings.Contains(t, "no consensus phase"):
+		return "nocons"
+	case strings.Contains(t, "decided wrong instance"):
+		return "wronginst"
+	case strings.Contains(t, "failed to parse decided value"):
+		return "decode"
+	case strings.Contains(t, "decided ConsensusData invalid"):
+		return "invalid"
+	}
+	return "ctrl"
+}
+
+func partialClass(err error) string {
+	if err == nil {
+		return "ok"
+	}
+	t := err.Error()
+	switch {
+	case strings.Contains(t, "msg ID doesn't match validator ID"):
+		return "foreign"
+	case strings.Contains(t, "no pre consensus sigs required"), strings.Contains(t, "no post consensus phase"):
+		return "nophase"
+	case strings.Contains(t, "no decided value"):
+		return "nodecided"
+	case strings.Contains(t, "no running consensus instance"):
+		return "noinst"
+	case strings.Contains(t, "consensus instance not decided"):
+		return "notdecided"
+	case strings.Contains(t, "can't start new duty runner instance"):
+		return "nostart"
+	}
+	return errClass(err)
+}
+
+func (s *runnerSut) deliver(ref msgRef) {
+	m := s.resolve(ref)
+	if m == nil {
+		return
+	}
+	role := ref.asRole
+	e := s.nd.envs[role]
+	br := e.r.GetBaseRunner()
+	s.nd.handled = nil
+	running := br.State != nil && !br.State.Finished
+	switch m.MsgType {
+	case spectypes.SSVConsensusMsgType:
+		sm := &specqbft.SignedMessage{}
+		if err := sm.Decode(m.Data); err != nil {
+			panic(err)
+		}
+		h := sm.Message.Height
+		// ---- the oracle: what the real controller is about to report, reconstructed around the call
+		prev := false
+		if running && br.State.RunningInstance != nil {
+			prev, _ = br.State.RunningInstance.IsDecided()
+		}
+		var before bool
+		var inst0 interface{ IsDecided() (bool, []byte) }
+		if br.QBFTController != nil {
+			if in := br.QBFTController.StoredInstances.FindInstance(h); in != nil {
+				before, _ = in.IsDecided()
+				inst0 = in
+			}
+		}
+		err := s.nd.process(m)
+		cls := consClass(err)
+		var ret []byte
+		reported := false
+		if ref.ownPK && br.QBFTController != nil && cls != "ctrl" {
+			if len(s.nd.handled) > 0 { // UponDecided ran
+				if !before {
+					reported, ret = true, s.nd.handled[0].FullData
+				}
+			} else if inst0 != nil && !before {
+				if after, v := inst0.IsDecided(); after {
+					reported, ret = true, v
+				}
+			}
+		}
+		oracle := fmt.Sprintf("%d %d", b01(cls == "ctrl"), b01(prev))
+		var objs [][32]byte
+		valid := false
+		if reported {
+			cd := &spectypes.ConsensusData{}
+			decodes := cd.Decode(ret) == nil
+			if decodes {
+				if vc := e.rs.valCheck(s.nd.km); vc != nil {
+					valid = vc(ret) == nil
+				}
+				if valid {
+					objs, _ = valueObjects(role, cd)
+				}
+			}
+			dcSlot := uint64(0)
+			if decodes {
+				dcSlot = uint64(cd.Duty.Slot)
+			}
+			oracle += fmt.Sprintf(" 1 %d %d %d %d %d %s", uint64(h), s.vid(ret), b01(decodes), b01(valid), dcSlot, s.ridList(objs))
+		} else {
+			oracle += " 0"
+		}
+		s.out.Op("RMSG", "%s C ; %s", ref, oracle)
+		s.out.Count("cons-" + cls)
+		signs := s.observe(role, cls)
+		s.monitorCons(role, ref, uint64(h), prev, reported, valid, objs, signs)
+	case spectypes.SSVPartialSignatureMsgType:
+		pm := &spectypes.SignedPartialSignatureMessage{}
+		if err := pm.Decode(m.Data); err != nil {
+			panic(err)
+		}
+		kind := "P"
+		if pm.Message.Type == spectypes.PostConsensusPartialSig {
+			kind = "O"
+		}
+		instDecided := false
+		if running && br.State.RunningInstance != nil {
+			instDecided, _ = br.State.RunningInstance.IsDecided()
+		}
+		am := amsg{signer: pm.Signer, slot: uint64(pm.Message.Slot), bnok: true}
+		for _, im := range pm.Message.Messages {
+			tag := "b1"
+			if sk := keySet(4).Shares[im.Signer]; sk != nil && blsVerify(sk.GetPublicKey(), im.SigningRoot, im.PartialSignature) {
+				tag = "g"
+			}
+			am.inner = append(am.inner, ainner{signer: im.Signer, root: s.rid(im.SigningRoot), tag: tag})
+		}
+		err := s.nd.process(m)
+		cls := partialClass(err)
+		instOK := br.State != nil && br.State.RunningInstance != nil
+		s.out.Op("RMSG", "%s %s %s ; %d %d", ref, kind, am, b01(instDecided), b01(instOK))
+		s.out.Count("partial-" + cls)
+		signs := s.observe(role, cls)
+		for range signs {
+			s.out.ViolF("a %s-consensus partial-signature message caused a validator-key signature", map[string]string{"P": "pre", "O": "post"}[kind])
+		}
+	}
+}
+
+// monitorCons: the theorem body on the recorded calls.  A consensus message may cause signatures only
+// if the controller reported the first decision of the running instance (height = duty slot), the
+// value passed the role's check, and then exactly the objects of that value, each once.
+func (s *runnerSut) monitorCons(role spectypes.BeaconRole, ref msgRef, h uint64, prev, reported, valid bool, objs [][32]byte, signs []signCall) {
+	if len(signs) == 0 {
+		return
+	}
+	dm := s.duties[role]
+	e := s.nd.envs[role]
+	st := e.r.GetBaseRunner().State
+	why := ""
+	switch {
+	case !ref.ownPK:
+		why = "a message of another validator"
+	case dm == nil || st == nil:
+		why = "a consensus message while no duty was started"
+	case !reported:
+		why = "a consensus message that did not make the consensus instance decide"
+	case h != dm.slot:
+		why = fmt.Sprintf("a decision for height %d while the running duty is for slot %d", h, dm.slot)
+	case !valid:
+		why = "a decided value that does not pass the duty's value check"
+	}
+	if why != "" {
+		s.out.ViolF("validator-key signature caused by %s (role %s)", why, roleName[role])
+		return
+	}
+	if dm.decided == nil {
+		dm.decided = map[[32]byte]bool{}
+		for _, r := range objs {
+			dm.decided[r] = true
+		}
+		dm.decideOp = s.out.Ops
+	}
+	for _, c := range signs {
+		if !dm.decided[c.root] {
+			s.out.ViolF("post-consensus signature over an object that is not contained in the value the running instance decided first (role %s)", roleName[role])
+			continue
+		}
+		dm.signed[c.root]++
+		if dm.signed[c.root] > 1 {
+			s.out.ViolF("decided object signed %d times (role %s, slot %d): the decision of the running instance was acted upon again", dm.signed[c.root], roleName[role], dm.slot)
+		}
+	}
+}
+
+func (s *runnerSut) finish() {}
+
+// ---- replay --------------------------------------------------------------------------------------------------
+
+func (s *runnerSut) replayOp(w []string) {
+	switch w[0] {
+	case "RSTART":
+		s.start(roleOf(w[1]), u(w[2]))
+	case "RMSG":
+		if w[1] == "T" {
+			s.deliver(msgRef{kind: "T", trRole: roleOf(w[2]), trSlot: u(w[3]), k: int(u(w[4])), asRole: roleOf(w[5]), ownPK: w[6] == "1"})
+		} else {
+			s.deliver(msgRef{kind: "D", trRole: roleOf(w[2]), height: u(w[3]), valKind: w[4], signers: int(u(w[5])), asRole: roleOf(w[6]), ownPK: w[7] == "1"})
+		}
+	}
+}
+
+// ---- generators -----------------------------------------------------------------------------------------------
+
+var consensusRoles = []spectypes.BeaconRole{spectypes.BNRoleAttester, spectypes.BNRoleProposer, spectypes.BNRoleAggregator,
+	spectypes.BNRoleSyncCommittee, spectypes.BNRoleSyncCommitteeContribution}
+
+func isDecidedRef(role spectypes.BeaconRole, slot uint64, k int) bool {
+	m := transcript(role, slot)[k]
+	if m.MsgType != spectypes.SSVConsensusMsgType {
+		return false
+	}
+	sm := &specqbft.SignedMessage{}
+	return sm.Decode(m.Data) == nil && sm.Message.MsgType == specqbft.CommitMsgType && len(sm.Signers) >= 3
+}
+
+func decidedIndex(role spectypes.BeaconRole, slot uint64) int {
+	for k := range transcript(role, slot) {
+		if isDecidedRef(role, slot, k) {
+			return k
+		}
+	}
+	return -1
+}
+
+func runnerGen(out *hx.Out, seed uint64, n int, roles []string) {
+	var rl []spectypes.BeaconRole
+	for _, r := range roles {
+		rl = append(rl, roleOf(r))
+	}
+	if len(rl) == 0 {
+		rl = append(append([]spectypes.BeaconRole{}, consensusRoles...), spectypes.BNRoleValidatorRegistration, spectypes.BNRoleVoluntaryExit)
+	}
+	for c := 0; c < n; c++ {
+		r := hx.NewRand(seed, "runner", uint64(c))
+		role := rl[r.Intn(len(rl))]
+		S := baseSlot(role)
+		tmpl := r.Intn(8)
+		out.Case("runner seed=%d case=%d role=%s template=%d", seed, c, roleName[role], tmpl)
+		out.Count("role-" + roleName[role])
+		out.Count(fmt.Sprintf("template-%d", tmpl))
+		s := newRunnerSut(out)
+		own := func(k int, slot uint64) msgRef {
+			return msgRef{kind: "T", trRole: role, trSlot: slot, k: k, asRole: role, ownPK: true}
+		}
+		T := transcript(role, S)
+		order := make([]int, len(T))
+		for i := range order {
+			order[i] = i
+		}
+		perturb := func() {
+			for i := 0; i < 1+r.Intn(4) && len(order) > 1; i++ { // a few local swaps
+				a := r.Intn(len(order) - 1)
+				order[a], order[a+1] = order[a+1], order[a]
+			}
+		}
+		cons := false
+		for _, cr := range consensusRoles {
+			cons = cons || cr == role
+		}
+		noise := func() { // one message that must not cause any signature
+			switch r.Intn(7) {
+			case 0: // stale duty
+				t := transcript(role, S-1)
+				s.deliver(own(r.Intn(len(t)), S-1))
+			case 1: // future duty
+				t := transcript(role, S+1)
+				s.deliver(own(r.Intn(len(t)), S+1))
+			case 2: // another validator
+				ref := own(r.Intn(len(T)), S)
+				ref.ownPK = false
+				s.deliver(ref)
+			case 3: // re-labelled to another role
+				other := consensusRoles[r.Intn(len(consensusRoles))]
+				ref := own(r.Intn(len(T)), S)
+				ref.asRole = other
+				s.deliver(ref)
+			case 4:
+				if cons { // decided value that fails the value check, at the running height
+					s.deliver(msgRef{kind: "D", trRole: role, height: S, valKind: fmt.Sprintf("bad:%d", S), signers: 3, asRole: role, ownPK: true})
+				}
+			case 5:
+				if cons { // valid decided message for another height
+					hh := S + uint64(1+r.Intn(2))
+					s.deliver(msgRef{kind: "D", trRole: role, height: hh, valKind: fmt.Sprintf("good:%d", S), signers: 3 + r.Intn(2), asRole: role, ownPK: true})
+				}
+			case 6:
+				if cons {
+					s.deliver(msgRef{kind: "D", trRole: role, height: S, valKind: "junk", signers: 3, asRole: role, ownPK: true})
+				}
+			}
+		}
+		switch tmpl {
+		case 0: // the honest schedule, then everything replayed
+			s.start(role, S)
+			for _, k := range order {
+				s.deliver(own(k, S))
+			}
+			for _, k := range order {
+				if r.Chance(1, 2) {
+					s.deliver(own(k, S))
+				}
+			}
+		case 1: // perturbed order with noise
+			perturb()
+			s.start(role, S)
+			for _, k := range order {
+				if r.Chance(1, 4) {
+					noise()
+				}
+				s.deliver(own(k, S))
+				if r.Chance(1, 6) {
+					s.deliver(own(k, S))
+				}
+			}
+		case 2: // messages before any duty, then the duty, then a second start of the same and the next duty
+			for i := 0; i < 3; i++ {
+				s.deliver(own(r.Intn(len(T)), S))
+			}
+			s.start(role, S)
+			cut := r.Intn(len(order) + 1)
+			for _, k := range order[:cut] {
+				s.deliver(own(k, S))
+			}
+			s.start(role, S)
+			s.start(role, S+1)
+			for _, k := range order[cut:] {
+				s.deliver(own(k, S))
+			}
+			t1 := transcript(role, S+1)
+			for k := range t1 {
+				s.deliver(own(k, S+1))
+			}
+		case 3: // only noise around a running duty, then the honest schedule
+			s.start(role, S)
+			for i := 0; i < 6; i++ {
+				noise()
+			}
+			for _, k := range order {
+				s.deliver(own(k, S))
+			}
+			for i := 0; i < 3; i++ {
+				noise()
+			}
+		case 4: // decided messages only (the node lags: it sees certificates, not the rounds)
+			s.start(role, S)
+			if cons {
+				kd := decidedIndex(role, S)
+				if r.Chance(1, 2) {
+					s.deliver(msgRef{kind: "D", trRole: role, height: S, valKind: fmt.Sprintf("bad:%d", S), signers: 3, asRole: role, ownPK: true})
+				}
+				if kd >= 0 {
+					s.deliver(own(kd, S))
+					s.deliver(own(kd, S))
+				}
+				s.deliver(msgRef{kind: "D", trRole: role, height: S, valKind: fmt.Sprintf("good:%d", S), signers: 4, asRole: role, ownPK: true})
+			}
+			for _, k := range order {
+				if r.Chance(1, 2) {
+					s.deliver(own(k, S))
+				}
+			}
+		case 5: // a lagging node: certificates of later duties arrive while the duty is still running, then the duty's own certificate, repeatedly
+			s.start(role, S)
+			if cons {
+				pre := r.Intn(3)
+				for _, k := range order {
+					if pre == 0 {
+						break
+					}
+					if T[k].MsgType == spectypes.SSVPartialSignatureMsgType {
+						s.deliver(own(k, S))
+					}
+				}
+				for j := uint64(1); j <= uint64(1+r.Intn(3)); j++ {
+					s.deliver(msgRef{kind: "D", trRole: role, height: S + j, valKind: fmt.Sprintf("good:%d", S), signers: 3, asRole: role, ownPK: true})
+				}
+				for i := 0; i < 2+r.Intn(2); i++ {
+					s.deliver(msgRef{kind: "D", trRole: role, height: S, valKind: fmt.Sprintf("good:%d", S), signers: 3 + r.Intn(2), asRole: role, ownPK: true})
+				}
+			}
+		case 6: // two duties back to back, messages of both interleaved
+			s.start(role, S)
+			t1 := transcript(role, S+1)
+			i, j := 0, 0
+			started := false
+			for i < len(order) || j < len(t1) {
+				if j >= len(t1) || (i < len(order) && r.Chance(2, 3)) {
+					s.deliver(own(order[i], S))
+					i++
+				} else {
+					if !started && r.Chance(1, 2) {
+						s.start(role, S+1)
+						started = true
+					}
+					s.deliver(own(j, S+1))
+					j++
+				}
+			}
+		default: // free: random picks from three transcripts and the noise generators
+			if r.Chance(3, 4) {
+				s.start(role, S)
+			}
+			for i := 0; i < 10+r.Intn(25); i++ {
+				switch r.Intn(6) {
+				case 0:
+					noise()
+				case 1:
+					s.start(role, S+uint64(r.Intn(2)))
+				default:
+					s.deliver(own(r.Intn(len(T)), S))
+				}
+			}
+		}
+		out.End()
+	}
+}
+
+var _ = sort.Ints
